@@ -44,7 +44,7 @@ static void test_multimap(uint64_t steps)
         if (op == 0) { m.emplace(k, ++serial); }
         else if (op == 1 || op == 2) { m.emplace_hint(nth(pos), k, ++serial); }
         else if (op == 3) { if (!m.empty()) { auto it = nth(pos); if (it == m.end()) it = std::prev(m.end()); m.erase(it); } }
-        else if (op == 4) { if (!m.empty()) { auto it = nth(pos); if (it == m.end()) --it; auto nh = m.extract(it); nh.key() = k; auto r = m.insert(std::move(nh)); out3(4, r->first, r->second); } }
+        else if (op == 4) { if (!m.empty()) { auto it = nth(pos); if (it == m.end()) --it; auto nh = m.extract(it); nh.key() = k; auto r = (pos & 64) ? m.insert(nth(pos >> 8), std::move(nh)) : m.insert(std::move(nh)); out3(4, r->first, r->second); } }
         else if (op == 5) { auto u = m.upper_bound(k); auto l = m.lower_bound(k); out3(5, u == m.end() ? 77 : u->second, l == m.end() ? 77 : l->second); }
         else { if (!m.empty()) { auto it = std::prev(m.upper_bound(2)); out3(6, it->first, it->second); auto f = m.find(k); out3(6, f == m.end() ? 77 : f->first, m.count(k)); } }
         dump_mm(m, 100 + op);
